@@ -416,7 +416,9 @@ def comp_state(draw, c):
 @st.composite
 def space_cfg(draw):
     kind = draw(st.sampled_from(["RV", "SO2", "SO3", "CS", "SE2", "SE3"]))
-    frac = st.one_of(st.none(), fl(0.02, 0.5))
+    # resolution fraction: mostly in (0, 1]; sometimes above 1 (the core clamps it to 1) or
+    # non-positive (the core ignores it)
+    frac = st.one_of(st.none(), fl(0.02, 0.5), st.sampled_from([1.0, 1.5, 7.0, 0.0, -1.0]))
     if kind in ("RV", "SO2", "SO3"):
         return {"kind": kind, "comps": [draw(comp_cfg(kind))], "weights": [1.0], "fracs": [draw(frac)]}
     if kind == "CS":
@@ -489,7 +491,7 @@ def scenario(draw, planners=("RRT", "RRTConnect", "RRTStar"), with_obstacles=Tru
         "planner": pl, "step": step, "goal_bias": draw(st.sampled_from([0.0, 0.05, 0.2, 0.5, 1.0])),
         "radius": (draw(fl(0.8, 3.0)) * step) if pl != "PRM" else draw(fl(0.2, 0.6)) * ext,
         "seed": draw(st.integers(0, 2 ** 32)), "timeout": 0.4, "prm_build_s": 0.02,
-        "frac_after": draw(st.one_of(st.none(), st.sampled_from([0.9, 0.011]))),
+        "frac_after": draw(st.one_of(st.none(), st.sampled_from([0.9, 0.011, 3.0]))),
     }
     return sc
 
